@@ -4,7 +4,9 @@
 
    usage: driver world <fixed:0|1> <histories> <impl-transcripts>
    output per history:  model transcript line, then a verdict line
-     "V <eq> <complete> <acc_pos> <acc_code> <c01d> <c02d>"              *)
+     "V <eq> <complete> <acc_pos> <acc_code> <c01d> <c02d>"
+          driver conc <cases> <impl-transcripts>
+          driver conc-enum <cases>                                        *)
 open Model
 
 let rec pos_of_int (n : int) : positive =
@@ -34,9 +36,11 @@ let line_of_transcript (t : z list list) : string =
   String.concat " | "
     (List.map (fun o -> String.concat " " (List.map (fun x -> string_of_int (int_of_z x)) o)) t)
 
-let () =
-  let domain = Sys.argv.(1) in
-  assert (domain = "world");
+let ints_line (l : z list) : string =
+  String.concat " " (List.map (fun x -> string_of_int (int_of_z x)) l)
+
+(* driver world <fixed:0|1> <histories> <impl-transcripts> *)
+let main_world () =
   let fixed = Sys.argv.(2) <> "0" in
   let hf = open_in Sys.argv.(3) in
   let tf = open_in Sys.argv.(4) in
@@ -49,9 +53,49 @@ let () =
        let v = verdict h t in
        print_string (line_of_transcript m);
        print_newline ();
-       print_string ("V " ^ (if eq then "1" else "0") ^ " "
-                     ^ String.concat " " (List.map (fun x -> string_of_int (int_of_z x)) v));
+       print_string ("V " ^ (if eq then "1" else "0") ^ " " ^ ints_line v);
        print_newline ()
      done
    with End_of_file -> ());
   close_in hf; close_in tf
+
+(* driver conc <cases> <impl-transcripts>
+   per case: the model transcript, then "V <decoded> <eq> <c10_ok>" *)
+let main_conc () =
+  let hf = open_in Sys.argv.(2) in
+  let tf = open_in Sys.argv.(3) in
+  (try
+     while true do
+       let h = List.map z_of_int (ints_of_line (input_line hf)) in
+       let t = transcript_of_line (input_line tf) in
+       let m = conc_transcript h in
+       let eq = zlists_eqb m t in
+       let v = conc_verdict h t eq in
+       print_string (line_of_transcript m);
+       print_newline ();
+       print_string ("V " ^ ints_line v);
+       print_newline ()
+     done
+   with End_of_file -> ());
+  close_in hf; close_in tf
+
+(* driver conc-enum <cases>: per case one line, its schedules separated by " | "
+   (the schedule part of the input case is "1 0" for every schedule, "0" for
+   the reduced enumeration) *)
+let main_conc_enum () =
+  let hf = open_in Sys.argv.(2) in
+  (try
+     while true do
+       let h = List.map z_of_int (ints_of_line (input_line hf)) in
+       print_string (line_of_transcript (conc_enum h));
+       print_newline ()
+     done
+   with End_of_file -> ());
+  close_in hf
+
+let () =
+  match Sys.argv.(1) with
+  | "world" -> main_world ()
+  | "conc" -> main_conc ()
+  | "conc-enum" -> main_conc_enum ()
+  | d -> prerr_endline ("unknown domain " ^ d); exit 2
